@@ -201,6 +201,13 @@ func runCPCase(o *Oracle, d json.RawMessage, oc *Outcome) {
 	var phase int32
 	s := solver.New(build())
 	s.CuttingPlanes = true
+	// a third of the cases with a small limit on the learned constraints, so that their database is
+	// reduced (reduceLearnedPB / unwatchPB) during the run
+	smallDB := hashString(oc.Key)%3 == 0
+	if smallDB {
+		s.VerifSetNbMax([]int{4, 8, 16}[hashString(oc.Key)/3%3])
+		oc.Tag("small-learned-limit")
+	}
 	s.VerifSetLearnHook(func(pc solver.PBConstr) {
 		learned = append(learned, pc)
 		learnedPhase = append(learnedPhase, int(atomic.LoadInt32(&phase)))
@@ -255,6 +262,9 @@ func runCPCase(o *Oracle, d json.RawMessage, oc *Outcome) {
 		check(entry, r.res.Status, r.res.Weight, r.res.Model, !c.Opt.NoCost)
 		s2 := solver.New(build())
 		s2.CuttingPlanes = true
+		if smallDB {
+			s2.VerifSetNbMax(8)
+		}
 		cost2 := s2.Minimize()
 		if cost2 == -1 && !(r.res.Status == solver.Sat && r.res.Weight == -1) { // -1 is Unsat, unless the optimum itself is -1
 			check("solver.Minimize(CuttingPlanes)", solver.Unsat, 0, nil, false)
